@@ -309,6 +309,28 @@ class C12(Scenario):
                         if fn.startswith("sim.ops.") and rng.random() < 0.5:
                             op.append({"do_apply_function_pullbacks": True, "do_apply_integral_scaling": True, "do_apply_geometry_lowering": True})
                     inserts.append((rng.randint(lo, npos), 10**6 + j, {"k": "noise", "n": ni, "op": op, "probe": 1}))
+        # echo noise: one of the program's own algorithm calls is made a first time earlier on
+        # the perturbed node (result discarded), so that the program's own call is the second
+        # application to the same object
+        if arm != "demo":
+            refs_of = lambda x, acc: ([acc.append(x[1])] if isinstance(x, list) and len(x) == 2 and x[0] == "$" and isinstance(x[1], int) else [refs_of(y, acc) for y in (x.values() if isinstance(x, dict) else x)] if isinstance(x, (list, dict)) else None)  # noqa: E731
+            cand = []
+            for k_, i in enumerate(pidx):
+                o = units[i]["op"]
+                if o[0] == "call" and isinstance(o[2], str) and (o[2].startswith("ufl.") or o[2].startswith("sim.ops.")) and any(t in o[2] for t in ("action", "adjoint", "derivative", "replace", "lhs", "rhs", "system", "extract_blocks", "preprocessed_form", "form_data", "expand_", "apply_", "renumber", "energy_norm", "functional")):
+                    acc = []
+                    refs_of(o[3:], acc)
+                    if acc and all(a_ in made_at for a_ in acc):
+                        cand.append((k_, o, max(made_at[a_] for a_ in acc) + 1))
+            for ni in range(1, len(nodes)):
+                if not cand or rng.random() >= (0.7 if arm == "probe" else 0.2):
+                    continue
+                for j in range(rng.randint(1, 3)):
+                    k_, o, lo = rng.choice(cand)
+                    if lo > k_:
+                        continue
+                    o2 = [o[0], NOISE_BASE * ni + 600_000 + j] + list(o[2:])
+                    inserts.append((rng.randint(lo, k_), 2 * 10**6 + j, {"k": "noise", "n": ni, "op": o2, "probe": 1}))
         # counter noise
         for ni in range(1, len(nodes)):
             for _ in range(rng.randint(0, 4)):
